@@ -16,6 +16,8 @@ in call order; the unused suffixes are returned.
 Not modelled here (other properties): the State cache / fork / revert mechanics (C01, C02) — a step
 returns the value `if accepted then proposed else current` —, the acceptance history and the
 adaptation of `std` (C19), the `random.shuffle` of the blocks (the visited order is an input).
+How the blocks themselves are chosen for a variable of any shape (iterator, draw shapes, `std` entry,
+masks) is `Model/Blocks.lean`; `Props/C03.lean` (`sampler_tables_agree`) ties the 2-D tables below to it.
 -/
 namespace LeaspyVerif.Sampler
 
